@@ -13,3 +13,21 @@ package block
 //@ requires b != nil && io.validR(br)
 //@ modifies *b, br.Err, br.uv, br.r.pos
 //@ ensures old(br.r.pos) <= br.r.pos && io.validR(br)
+
+//@ import util github.com/nspcc-dev/neo-go/pkg/util
+// Identity of a header (the cached hash is a function of the header object).
+//@ spec hdrHash(b *Header) util.Uint256
+//@ func (*Header).Hash
+//@ assumed
+//@ pure
+//@ requires b != nil
+//@ ensures result == hdrHash(b)
+
+// Merkle root of a block's transactions (hash tree computation is C18's subject; here an
+// observer of the block object).
+//@ spec blockMerkle(b *Block) util.Uint256
+//@ func (*Block).ComputeMerkleRoot
+//@ assumed
+//@ pure
+//@ requires b != nil
+//@ ensures result == blockMerkle(b)
